@@ -111,6 +111,17 @@ def b2LineDeliveredFrom (rest : VBytes) (o peeked : Nat) : VBytes × Nat :=
     | b :: bs => if b == 10 && i + 1 ≥ peeked then (bs, i + 1) else go bs (i + 1)
   go rest o
 
+/-- `|AGAIN:<outcome>` per re-call of `next_line` on the state the model is left in after the
+final outcome (as `eng_btor2.rs`; `Driver.recalls` calls). -/
+def b2Again : Nat → LR → String
+  | 0, _ => ""
+  | n + 1, lr =>
+    match nextLine.run lr with
+    | (.ok (some l), lr') => "|AGAIN:" ++ b2Line l ++ b2Again n lr'
+    | (.ok none, lr') => "|AGAIN:END" ++ b2Again n lr'
+    | (.error (.panic _), _) => "|AGAIN:E:panic"
+    | (.error e, lr') => "|AGAIN:" ++ showPErr e ++ b2Again n lr'
+
 def runBtor2Case (line : String) : String × String :=
   let fs := fields line
   if field fs "v" != "" then runValidatorCase (field fs "v") else
@@ -137,8 +148,9 @@ def runBtor2Case (line : String) : String × String :=
                     else if ls then b2LineDeliveredFrom cur.1 cur.2 lr'.v.peeked else cur
         let at_ := if ls then s!"@{cur'.2}" else ""
         drive f lr' cur' (s!"{b2Line l}{at_}" :: acc) (cm + c1) (sy + s1)
-      | (.ok none, _) => (acc.reverse, "END", cm, sy)
-      | (.error e, _) => (acc.reverse, showPErr e, cm, sy)
+      | (.ok none, lr') => (acc.reverse, "END" ++ b2Again recalls lr', cm, sy)
+      | (.error (.panic s), _) => (acc.reverse, showPErr (.panic s), cm, sy)
+      | (.error e, lr') => (acc.reverse, showPErr e ++ b2Again recalls lr', cm, sy)
   let (items, fin, cm, sy) := drive (data.length + 2) lr0 (data, 0) [] 0 0
   (b2joinObs items fin,
    s!"lines={items.length} fin={fin.take 5} fault={b2s fault} ls={b2s ls} cmt={cm} sym={sy} maxkw={maxLowerRun data}")
